@@ -473,9 +473,9 @@ def make_machine_factory(col):
                 self.ap("local_send", kind)
 
             @rule(kind=st.sampled_from(["valid", "valid", "empty", "badcode", "badutf8", "onebyte"]),
-                  code=st.sampled_from([1000, 1001, 1011, 3000, 4999, 1004, 1005, 1006, 999, 5000, 1015]), reason=st.sampled_from(REASONS))
+                  code=st.sampled_from([1000, 1001, 1011, 3000, 4999, 1004, 1005, 1006, 999, 5000, 1015, 2999, 1016, 2000, 1100, 0, 65535]), reason=st.sampled_from(REASONS))
             def peer_close(self, kind, code, reason):
-                if kind == "valid" and code in (1004, 1005, 1006, 999, 5000, 1015):
+                if kind == "valid" and code not in (1000, 1001, 1011, 3000, 4999):
                     code = 1000
                 if kind == "badcode" and code in (1000, 1001, 1011, 3000, 4999):
                     code = 1005
